@@ -80,9 +80,9 @@ CONSTS = {
     "quick": dict(BINS="{0,1,2,3,8}", TYPES="{0,4,6}", XS="{1,2,31,32,33,65,4096,4097,8192,8193}",
                   YS="{1,2,31,32,33,65,4096,4097,8192,8193}", XS2="{1,33,8193}", YS2="{2,64}", OES="{0,2}", sample=70),
     "thorough": dict(BINS="{0,1,2,3,4,8,16}", TYPES="{0,1,2,3,4,5,6,7}",
-                     XS="{1,2,31,32,33,64,65,2048,2049,4095,4096,4097,8192,8193}",
-                     YS="{1,2,31,32,33,64,65,2048,2049,4095,4096,4097,8192,8193}",
-                     XS2="{1,33,2049,8193}", YS2="{2,63,4097}", OES="{0,2}", sample=500),
+                     XS="{1,2,3,31,32,33,63,64,65,2048,2049,4095,4096,4097,8192,8193}",
+                     YS="{1,2,3,31,32,33,63,64,65,2048,2049,4095,4096,4097,8192,8193}",
+                     XS2="{1,33,2049,8193}", YS2="{2,63,4097}", OES="{0,1,2}", sample=900),
     "demo": dict(BINS="{1,2,8}", TYPES="{0,4}", XS="{1,33,64}", YS="{2,48}", XS2="{1,8}", YS2="{2}", OES="{0}", sample=1),
 }
 INVARIANTS = "TypeOK ReportedShapeConsistent ReadBackInEffect CopyExact RenderWithinBuffers Bin2AlignmentOK"
